@@ -687,8 +687,8 @@ def explore(rep, tier, rng, replay, profiles=("debug", "release")):
     def points(t):
         return sum(int(x) for x in re.findall(r"raw:n=(\d+)", t["raw"] or ""))
     midx = [i for i, m in enumerate(muts)
-            if replay or (points(tots[first][i]) <= MODEL_MAX_POINTS and
-                          (len(m["phys"]) <= MODEL_MAX_BYTES or (not tots[first][i]["crash"] and r2.below(60) == 0)))]
+            if points(tots[first][i]) <= MODEL_MAX_POINTS and
+            (replay or len(m["phys"]) <= MODEL_MAX_BYTES or (not tots[first][i]["crash"] and r2.below(60) == 0))]
     mlines = [model_line(tots[first][i], devtok(muts[i]["phys"])) for i in midx]
     mout = core.run_cases(core.DRIVER, mlines)
     model = [None] * len(muts)
